@@ -445,7 +445,11 @@ def grids():
     g["ecb_instr"] = [([float(st), s, p, pre], [3], None) for s in subj for p in pats for st in (1, 2, 3) for pre in (0.0, 5.0)]
     g["ecb_string"] = [([float(c), s, "junk"], [2], None) for c in (0, 1, 2, 5, -1) for s in ("", "A", "XYZ")]
     g["ecb_read_filter"] = [([s, pre], [1], None) for s in ["", "0", "12", "-5", " 7"] for pre in (0.0, 9.0)]
-    return g
+    # parameters are passed by reference: what a procedure leaves in its ARGUMENT cells is visible to the caller too, so every
+    # cell is compared (a helper that counts down in its count parameter computes one value right and ruins the next)
+    g["ecb_instr"] += [([float(st), s, p, float(st)], [3], (0, 3)) for s in ("XYX", "ABAB") for p in ("Y", "AB", "Q") for st in (1, 2, 3)]
+    g["ecb_string"] += [([float(c), s, s], [2], (1, 2)) for c in (0, 1, 3) for s in ("X", "AB")]
+    return {name: [(args, sorted(set(outs) | set(range(len(args)))), alias) for args, outs, alias in grid] for name, grid in g.items()}
 
 
 def run_once(lib, name, args, outs, alias):
